@@ -588,7 +588,7 @@ def multi_taper_psd(
     sdf_est /= Fs
 
     if sides == 'onesided':
-        freqs = np.linspace(0, Fs / 2, NFFT //  2 + 1)
+        freqs = np.fft.rfftfreq(NFFT) * Fs
     else:
         freqs = np.linspace(0, Fs, NFFT, endpoint=False)
 
@@ -727,7 +727,7 @@ def multi_taper_csd(s, Fs=2 * np.pi, NW=None, BW=None, low_bias=True,
     csdfs /= Fs
 
     if sides == 'onesided':
-        freqs = np.linspace(0, Fs / 2, NFFT //  2 + 1)
+        freqs = np.fft.rfftfreq(NFFT) * Fs
     else:
         freqs = np.linspace(0, Fs, NFFT, endpoint=False)
 
